@@ -47,7 +47,35 @@ func typeProbes[T signal.SignalTypes](name string) func(ch, length int) []Probe 
 		exact := signal.PoolAlloc[T](signal.Allocator{Channels: ch, Length: 0, Capacity: length}) // the source fills it exactly
 		pool := signal.PoolAlloc[T](signal.Allocator{Channels: ch, Length: 0, Capacity: length + 4})
 		poolL := signal.PoolAlloc[T](al)
+		// copies of an allocator value made before its first use: they share
+		// one pool with the original and with each other
+		poolV := signal.PoolAlloc[T](al)
+		copies := []signal.PoolAllocator[T]{poolV, poolV, poolV}
+		// a buffer whose last frame is only partly filled
+		rag := signal.Alloc[T](al)
+		if ch > 1 {
+			rag.AppendSample(T(3))
+		}
 		ps := []Probe{
+			{Name: "pool-cycle-through-copies-of-an-allocator-value[" + name + "]", Run: func() {
+				g1 := copies[0].Get()
+				g2 := copies[1].Get()
+				copies[2].Put(g1)
+				copies[0].Put(g2)
+			}},
+			{Name: "accessors+Channel-view+Slice-with-partial-last-frame[" + name + "]", MaxPerRun: 1, Run: func() {
+				var acc T
+				for c := 0; c < ch; c++ {
+					cv := rag.Channel(c)
+					SinkInt = cv.Channels() + cv.Length() + cv.Capacity() + rag.Length() + rag.Len()
+					for i := 0; i < length; i++ {
+						acc += cv.Sample(i)
+						cv.SetSample(i, acc)
+					}
+				}
+				SinkFloat = float64(acc)
+				SinkAny = rag.Slice(0, length)
+			}},
 			{Name: "Sample/SetSample[" + name + "]", Run: func() {
 				var acc T
 				for i := 0; i < b.Len(); i++ {
